@@ -141,7 +141,9 @@ fn predict_h<const P: usize, const H: usize>() {
     let mu = inp::f64(40);
     let hist = series::<3>(100);
     vassume!(mu >= -1.0e3 && mu <= 1.0e3);
-    let ar = AR { p: P, coeffs: coeffs.to_vec(), intercept: mu };
+    let mut ar = AR::new(P);
+    ar.coeffs = coeffs.to_vec();
+    ar.intercept = mu;
     let f = ar.predict(&hist, H);
     vassert!(f.len() == H, "predict returned {} forecasts for horizon {}", f.len(), H);
     // reference: centred history, coefficients are stored reversed (coeffs[P-1] multiplies the latest value)
